@@ -593,8 +593,14 @@ def input_values(check: Check) -> None:
     # getter: column_stack of variable.value in variable order
     rg = Resolver(p, getter)
     rets = [rg.term(m.ast.value, m) for m in rg.cfg.stmt_nodes() if isinstance(m.ast, ast.Return) and m.ast.value is not None]
-    g_ok = bool(rets) and any(s[0] == "call" and s[1] == ("global", "numpy.column_stack") for t in rets for s in walk(t)) and \
-        "input_variable.value for input_variable in self.input_variables" in unparse(getter.node)
+    ivs = ("attr", ("param", "self"), "input_variables")
+    per_var = ("mapped", ivs, ("attr", ("elem", ivs), "value"))
+
+    def stacked(t: Term) -> bool:
+        return t[0] == "call" and t[1] == ("global", "numpy.column_stack") and len(t[2]) == 1 and any(q == per_var for q in walk(t[2][0]))
+
+    g_ok = bool(rets) and any(stacked(s_) for t in rets for s_ in walk(t)) and \
+        not any(s_[0] == "mapped" and s_ != per_var for t in rets for s_ in walk(t))
     check.require(g_ok, "V3", "Engine.input_values.getter/columns", "the matrix stacks variable.value as columns in variable order", loc(getter))
 
 
